@@ -134,7 +134,8 @@ CHECKS["C12"] = dict(
          "configuration is all-default at every depth; over every history of assignments (accepted or rejected), loads and resets on "
          "one configuration level the user-defined status of every key equals what a key-set machine computed from the schema alone "
          "says (refinement by induction over histories), rejected assignments are invisible, reset after any history restores default "
-         "and status.",
+         "and status; the reading of support.reset_value / is_value_defined regenerated on every run is the one the model follows "
+         "(reset_code_order).",
     note=CFG_NOTE + " The history refinement is proved for the leaf keys of one configuration level (deeper levels: all-default at build is "
          "proved, histories are compared by the correspondence).",
     technique="Lean 4 proof (per-step state-machine lemmas) + model/implementation correspondence",
@@ -195,7 +196,8 @@ CHECKS["C16"] = dict(
          "sections constructed with an explicit key=; option texts the field normalises (other case, blanks, numbers as text) against declared "
          "choices / bounds; chains of sections five levels deep."
          " Continuation (Props/C16b.lean): the reading of generate_argparse_parser regenerated on every run — every add_argument call passes only "
-         "action/dest/help/metavar/default=None, so argparse neither converts nor restricts nor supplies values (parser_adds_nothing).",
+         "action/dest/help/metavar/default=None, so argparse neither converts nor restricts nor supplies values (parser_adds_nothing); the "
+         "reading of cmdline_args_override / get_all_fields regenerated on every run is the one the model follows (override_code_order).",
     note=CFG_NOTE + " argparse itself (exact long options, --opt=value, switches) is CPython's; abbreviations and option-like values are "
          "outside the model. Known finding F17: enumeration on a nested (keyed) schema yields paths that do not resolve on it.",
     technique="Lean 4 proof (mutual structural recursion over schemas; fold induction) + model/implementation correspondence",
